@@ -13,6 +13,7 @@ import (
 	"os"
 	"os/exec"
 	"path/filepath"
+	"regexp"
 	"runtime"
 	"runtime/debug"
 	"sort"
@@ -215,6 +216,9 @@ func (r *Run) Do(caseID string, fn func()) {
 // Exec is Do without the ownership test.
 func (r *Run) Exec(caseID string, fn func()) {
 	r.mark(caseID)
+	done := make(chan struct{})
+	defer close(done)
+	go r.hangWatch(caseID, done)
 	defer func() {
 		if p := recover(); p != nil {
 			st := string(debug.Stack())
@@ -222,6 +226,67 @@ func (r *Run) Exec(caseID string, fn func()) {
 		}
 	}()
 	fn()
+}
+
+// hangWatch: a case that has not returned after caseWatchdog is looked at through a goroutine dump. Only one situation is
+// a verdict: a goroutine that has been waiting for a sync.Mutex / sync.RWMutex for at least mutexStuck minutes with
+// code of the repository on its stack - no amount of machine load explains that; it is reported as a hang and the worker
+// ends (its other results are kept). Anything else is left running (the parent's worker watchdog makes it inconclusive).
+const (
+	caseWatchdog = 12 * time.Minute
+	mutexStuck   = 10 // minutes
+)
+
+var reGoroutineHeader = regexp.MustCompile(`^goroutine \d+ \[([a-z A-Z.]+)(?:, (\d+) minutes)?\]:$`)
+
+func (r *Run) hangWatch(caseID string, done <-chan struct{}) {
+	for {
+		select {
+		case <-done:
+			return
+		case <-time.After(caseWatchdog):
+		}
+		buf := make([]byte, 16<<20)
+		dump := string(buf[:runtime.Stack(buf, true)])
+		for _, g := range strings.Split(dump, "\n\n") {
+			lines := strings.Split(g, "\n")
+			m := reGoroutineHeader.FindStringSubmatch(lines[0])
+			if m == nil || m[2] == "" {
+				continue
+			}
+			if mins, _ := strconv.Atoi(m[2]); mins < mutexStuck {
+				continue
+			}
+			if !strings.Contains(g, "sync.(*Mutex).Lock") && !strings.Contains(g, "sync.(*RWMutex).Lock") && !strings.Contains(g, "sync.(*RWMutex).RLock") {
+				continue
+			}
+			site := ""
+			for _, l := range lines[1:] {
+				if strings.HasPrefix(l, "\t") || !strings.Contains(l, "block-headers-service/") || strings.Contains(l, "verifharness") {
+					continue
+				}
+				if i := strings.LastIndex(l, "("); i > 0 {
+					l = l[:i]
+				}
+				site = l[strings.Index(l, "block-headers-service/")+len("block-headers-service/"):]
+				break
+			}
+			if site == "" {
+				continue
+			}
+			select {
+			case <-done:
+				return
+			default:
+			}
+			r.Violate("hang|mutex|"+site, fmt.Sprintf("a goroutine has been waiting for a mutex in %s for %s minutes while executing this case (the case never returned)", site, m[2]), caseID, map[string]any{"goroutine": trimStack(g)})
+			if r.isChild {
+				r.writePartialAndExit()
+			}
+			code := r.finish()
+			os.Exit(code)
+		}
+	}
 }
 
 func (r *Run) mark(caseID string) {
@@ -406,6 +471,11 @@ func childMain(s Spec) {
 		r.curFile = f
 	}
 	s.Body(r)
+	r.writePartialAndExit()
+}
+
+// writePartialAndExit hands this worker's results to the parent and ends the process.
+func (r *Run) writePartialAndExit() {
 	var pvs []pViolation
 	for _, v := range r.violations {
 		pv := pViolation{Sig: v.Sig, What: v.What, CaseID: v.CaseID}
